@@ -1326,6 +1326,25 @@ func ruleLockBalance(r *Run, rule string) {
 				acquires = true
 			}
 		})
+		// a deferred call of a helper of the package whose job is the release (defer sm.runlock())
+		allInstrs(fn, func(in ssa.Instruction) {
+			d, ok := in.(*ssa.Defer)
+			if !ok {
+				return
+			}
+			g := staticCallee(d.Common())
+			if g == nil || g.Pkg != w.SPkg || len(g.Blocks) == 0 {
+				return
+			}
+			cg := NewCanon(w)
+			allInstrs(g, func(in2 ssa.Instruction) {
+				if op, isDef, cc := lockOp(in2); !isDef && (op == "Unlock" || op == "RUnlock") {
+					if t, ok := translatePath(la.c, cg.S(cc.Args[0]), d.Call.Args, nil); ok {
+						defers = append(defers, dreg{t, in})
+					}
+				}
+			})
+		})
 		// a deferred closure that unlocks counts as well
 		allInstrs(fn, func(in ssa.Instruction) {
 			d, ok := in.(*ssa.Defer)
